@@ -73,11 +73,11 @@ def replay(c):
 
 def describe():
     return dict(
-        rule='every history of <= K operations per element class (two passes, see bounds); after every operation the ordered view, '
+        rule='every operation from every reachable state per element class (breadth-first, see bounds); after every operation the ordered view, '
              'the insertion-ordered view and the harness\'s own record are compared by object identity; non-trivial = every history',
         functions=['xmlelement/xmlelement.py:XMLElement.add_child', 'XMLElement.remove', 'XMLElement.replace_child',
                    'XMLElement.get_children', 'xmlelement/xmlchildcontainer.py:XMLChildContainer.add_element', 'xsd/xsdelement.py:XSDElement.add_xml_element'],
-        bounds=dict(history_length='wide pass (8 kinds) K=2; deep pass (ADD REMOVE REPLACE DOTSET DOTNONE) K=3 (4 thorough)',
+        bounds=dict(exploration='breadth-first over reachable states (structural fingerprints merge equal states), depth <= 8 quick / 10 thorough; every state expanded by all 10 operation kinds at depth <= 2 (3), by ADD REMOVE REPLACE DOTSET DOTNONE SELF deeper; path budget 3500 quick / 45000 thorough per class (breadth-first order: the cut removes the deepest states)',
                     outside='longer histories'),
         assumptions=['children built with xsd_check=False', 'quick tier: symmetry-reduced alphabets'],
         exhaustive_within_bounds=True)
